@@ -150,10 +150,15 @@ CLAIMED = {
         "any way of cutting a run of the instruction loop into budgets gives the same state and first event as one budget of the same total, for every "
         "program, state and cut; at the API, execute(n+m) = execute(n); execute(m) while the machine stays running; interrupt() saves exactly what CONT "
         "restores; a pending key wait answers 'key wanted' again without changing the machine, and CONT after an interrupt taken during the wait comes "
-        "back to the same wait, address, stack and variables (Props/C13.v, Proofs/Slicing.v).",
+        "back to the same wait, address, stack and variables; the interrupt / CONT round trip through the public entry points "
+        "(interrupt, the execute calls that report ?BREAK and show the prompt, enter(CONT), execute(k+1)) equals execute(k) of a machine that agrees with "
+        "the interrupted one in address, stack, variables, functions, random state, program code, symbols and data and differs only in cursor column, "
+        "emptied continuation slot, trace marker and direct-code area -- for every machine with a linked program, and likewise for every machine at the "
+        "prompt whose slot holds a running program (STOP, END, errors) (Props/C13.v, Proofs/Slicing.v, ContTrip.v).",
         "the same sessions under seven quanta, interrupted after every k-th execute(1) call with optional inspection and CONT, with STOP inserted at "
         "statement boundaries, and programs waiting for keys (INKEY$) interrupted while each wait is pending; outputs must equal the uninterrupted run modulo the ?BREAK block and its forced line break.",
-        "PARTIAL: CONT transparency (STOP/END/interrupt then CONT reaches the state of the uninterrupted run) is decided by the monitor, not proved.",
+        "PARTIAL: that the rest of the run does not read the four fields in which the resumed machine differs (the column is visible to TAB, POS and print "
+        "zones by design), and the END / STOP statements end to end, are decided by the monitor, not proved.",
         "Coq slicing theorem + schedule-enumerating differential and relational check"),
     "C14": entry(
         "the change map is built completely before any line is touched (a failing RENUM leaves the listing as it was); lines below old-start are not in "
